@@ -250,6 +250,10 @@ class Run:
             k2_harness.setup('same')
             return k2_harness.quote(v, q, qe, d, m)
 
+        def converted(v):
+            k2_harness.setup('same')
+            return k2_harness.convert(v)
+
         def piece(x):
             return str(x)
 
@@ -356,7 +360,7 @@ class Run:
         nsd = dict(S=S, S0=S0, out=out, out_at=out_at, val=val, evals=evals, holes=holes,
                    trace=trace, raised=raised, repeat_failed=repeat_failed, repeat_kept=repeat_kept,
                    repeat_restored=repeat_restored,
-                   exc_is_exception=exc_is_exception, quoted=quoted,
+                   exc_is_exception=exc_is_exception, quoted=quoted, converted=converted,
                    piece=piece, visible=visible, visible0=visible0, visible_at=visible_at,
                    global_now=global_now, in_local=in_local, scope_frame=scope_frame,
                    handler_calls=handler_calls, handler_configured=handler_configured,
